@@ -3,7 +3,7 @@
 import json, os, subprocess
 V = os.path.dirname(os.path.dirname(os.path.abspath(__file__)))
 
-HOOK_COMMITS = ["5030260", "8d90710"]
+HOOK_COMMITS = ["5030260", "8d90710", "b599834"]
 
 CHECKS = {
  "C08": dict(
@@ -70,7 +70,7 @@ CHECKS = {
    level="fault_enumeration", design="DESIGN.md 6.8, 7 (C13)",
    technique="TLA+ spec Crash.tla (storage operations refined into persisted write steps, Crash enabled at every step boundary) model-checked with TLC; every crashed state replayed by killing a child process at the matching probe (hook H2) and re-opening the account",
    text="Crash.tla refines create/update/delete of a secret and folder compaction into the writes the code performs on the persisted vault, the folder event log, its snapshot and the account log, for the file-system and the sqlite backend; TLC enumerates pre-history x crashing operation x step boundary and shows that the intended design (atomic log replacement, vault reconciled with the log on open) satisfies OpensAfterCrash, LogBeforeOrAfter and FolderEqReplayAfterRecover. Each crashed state of the code-faithful model becomes one process-level test: a child performs the pre-history on a real account, arms the probe of that boundary and dies by abort(); the parent re-opens through the normal path and checks that the account opens, the folder log is the one before or after the operation, reduce(log) = served = persisted and the integrity report is clean. Failures at crash points listed in known_findings.jsonl (keyed by backend, crash point and failure class) print KNOWN-FINDING; any other is a VIOLATION.",
-   note="Process death between writes only (completed writes are applied in order); torn writes inside one write() and power-loss reordering are not enumerated; operations covered: secret create/update/delete, compaction (folder create/delete, merges, key changes have probes but are not yet in Crash.tla)."),
+   note="Process death between writes only (completed writes are applied in order); torn writes inside one write() and power-loss reordering are not enumerated; operations covered: secret create/update/delete, compaction, forced merge of a folder (Crash.tla) and folder create/delete (CrashFolder.tla: storage, account log and identity folder written one after the other); key changes and checked merges are not yet modelled."),
  "C03": dict(
    level="model_checking", design="DESIGN.md 0A.2, 7 (C03)",
    technique="TLA+ spec Flow.tla (operations write clear / sealed-under-key tokens to sinks; observer closure) model-checked with TLC; simulated behaviours executed on two LocalAccount devices and an in-process server with a byte scan of every sink after every step compared with the specification's predicted clear tokens",
